@@ -15,12 +15,17 @@ pub mod c09;
 pub mod c10;
 pub mod c11;
 pub mod be256;
+pub mod c12;
+pub mod c13;
+pub mod c14;
+pub mod smt_gen;
 pub mod c16;
 pub mod c17;
 pub mod c18;
 pub mod c21;
 pub mod c22;
 pub mod c25;
+pub mod c30;
 pub mod insn_bench;
 pub mod c32;
 pub mod grp_e;
@@ -37,12 +42,16 @@ pub fn run(cfg: &Cfg) -> Option<Report> {
         "C09" => c09::run(cfg),
         "C10" => c10::run(cfg),
         "C11" => c11::run(cfg),
+        "C12" => c12::run(cfg),
+        "C13" => c13::run(cfg),
+        "C14" => c14::run(cfg),
         "C16" => c16::run(cfg),
         "C17" => c17::run(cfg),
         "C18" => c18::run(cfg),
         "C21" => c21::run(cfg),
         "C22" => c22::run(cfg),
         "C25" => c25::run(cfg),
+        "C30" => c30::run(cfg),
         "C32" => c32::run(cfg),
         _ => return None,
     };
